@@ -1716,7 +1716,13 @@ class Engine:
                 self.assign(n.target, seq.elem(k, it), it)
                 for kind, val, s2 in self.run(n.body, it):
                     if kind in ("normal", "continue"):
-                        self.oblige(f"loop{lid}/inv-preserved", s2, spec.inv(s2, k + 1, N), kind="invariant")
+                        s2i = s2
+                        if s2.ghost.get("Q") and s2.ghost.get("Qterms"):
+                            # the assumed universally quantified facts of the path, instantiated at the terms the body read
+                            s2i = s2.fork()
+                            for term in s2.ghost["Qterms"]:
+                                s2i.pc += [to_z3(q(term)) for q in s2.ghost["Q"]]
+                        self.oblige(f"loop{lid}/inv-preserved", s2i, spec.inv(s2, k + 1, N), kind="invariant")
                         if spec.qinv:
                             self.qoblige(f"loop{lid}/inv-preserved", s2, spec.qinv(s2, k + 1, N), kind="invariant")
                     elif kind == "break":
